@@ -365,6 +365,23 @@ fn hostile(r: &mut Xo, valid: &str, out: &mut Out) -> String {
             format!("{v}{}", &valid[2..])
         }
         7 => {
+            if r.chance(1, 3) {
+                // very short strings and strings that are (mostly) white space or control characters:
+                // the version prefix, the length guard and any trimming meet here
+                out.bump("hostile_short_or_blank");
+                let alphabet = [b' ', b' ', b'\t', b'\n', b'\r', 0x0b, 0x0c, b'0', b'2', b'e', b'=', b'+', b'/', 0x7f, 0x01];
+                let n = r.range(0, 8) as usize;
+                let mut v: Vec<u8> = (0..n).map(|_| *r.pick(&alphabet)).collect();
+                if r.chance(1, 3) {
+                    // a valid string wrapped in or followed by white space
+                    let ws = *r.pick(&[" ", "\n", "\r\n", "\t", "  \n"]);
+                    let mut w = if r.chance(1, 2) { ws.as_bytes().to_vec() } else { vec![] };
+                    w.extend_from_slice(valid.as_bytes());
+                    w.extend_from_slice(ws.as_bytes());
+                    v = w;
+                }
+                return String::from_utf8_lossy(&v).into_owned();
+            }
             out.bump("hostile_random_ascii");
             let n = r.range(0, 200) as usize;
             (0..n).map(|_| (r.range(32, 126) as u8) as char).collect()
